@@ -36,6 +36,7 @@ type C10Plan struct {
 	FlipBit  int         `json:"flip_bit,omitempty"`
 	Reader   ReaderSpec  `json:"reader"`
 	Writer   WriterSpec  `json:"writer"`
+	ReprSeed uint64      `json:"repr_seed,omitempty"` // write: proof elements handed over in non-normalised / sign-flipped representations
 }
 
 type c10 struct{}
@@ -112,6 +113,9 @@ func (*c10) Gen(seed uint64, run int, tier, variant string) interface{} {
 	nl := natLen(p.Kind)
 	if r.Chance(22) {
 		p.Op = "write"
+		if r.Chance(40) {
+			p.ReprSeed = r.U64() | 1
+		}
 		if r.Chance(70) {
 			p.Writer = WriterSpec{FailCall: r.Intn(nFields(p.Kind) + 1), Mode: []string{"zero", "partial", "afterfull"}[r.Intn(3)], OneShot: r.Bool()}
 		}
@@ -600,7 +604,10 @@ func classGroup(c string) string {
 
 func c10write(p *C10Plan, data []byte, class string) Result {
 	var res Result
-	res.Shape = fmt.Sprintf("%s write failcall=%d mode=%s oneshot=%v", p.Kind, p.Writer.FailCall, p.Writer.Mode, p.Writer.OneShot)
+	res.Shape = fmt.Sprintf("%s write failcall=%d mode=%s oneshot=%v reprs=%v", p.Kind, p.Writer.FailCall, p.Writer.Mode, p.Writer.OneShot, p.ReprSeed != 0)
+	if p.ReprSeed != 0 && p.Kind == "multi" {
+		res.fault("write-non-normalised-representation")
+	}
 	nl := natLen(p.Kind)
 	w := NewSimWriter(p.Writer)
 	var werr error
@@ -617,6 +624,21 @@ func c10write(p *C10Plan, data []byte, class string) Result {
 			if err := mp.Read(bytes.NewReader(data)); err != nil {
 				panicV = "harness: honest proof does not parse: " + err.Error()
 				return
+			}
+			if p.ReprSeed != 0 {
+				rr := NewRng(p.ReprSeed, 0, "c10 reprs")
+				re := func(e *banderwagon.Element) {
+					if rp, ok := RefFromElem(e); ok {
+						*e = ElemFromRef(rp, Repr(rr.Intn(int(NumReprs))), rr.Scalar())
+					}
+				}
+				re(&mp.D)
+				for i := range mp.IPA.L {
+					re(&mp.IPA.L[i])
+				}
+				for i := range mp.IPA.R {
+					re(&mp.IPA.R[i])
+				}
 			}
 			werr = mp.Write(w)
 		case "ipa":
@@ -641,7 +663,7 @@ func c10write(p *C10Plan, data []byte, class string) Result {
 			werr = mp.Write(w)
 		}
 	}()
-	res.Nontrivial = w.Fired
+	res.Nontrivial = w.Fired || (p.ReprSeed != 0 && p.Kind == "multi")
 	res.Trace = mix(uint64(w.Calls)*131 + uint64(len(w.Buf)))
 	if panicV != nil {
 		return mergeViolation(res, "panic", "%s Write panicked: %v", p.Kind, panicV)
